@@ -25,6 +25,7 @@ func checkC10(c *Ctx, r *Report) {
 	c10R2(c, r)
 	borrow(c, r, func(c *Ctx, r *Report) { freshHash(c, r, "C17.R5.fresh-hash") }, "C17.R5.fresh-hash", "C10.R2.fresh-hash", 1, "hashFromAlgorithm returns a hash state of its own for every call", nil, "concurrent Sign / Verify calls share one buffer: an Ed25519 signature is made over a mixture of two RRsets and does not verify")
 	c10R3(c, r)
+	canonicalOwnerLast(c, r, "C10.R3.canonical-owner-last")
 	c10R4(c, r)
 	c17R6as(c, r, "C10.R5.rsa-limits")
 	// the name pre-checks go through equal(); the canonical form is computed on copies
